@@ -73,8 +73,11 @@ def s4(chk: Check, proj: Project, m) -> None:
     ga, gm_ = m.func("_get_comp_cls_attr"), m.func("_get_comp_cls_media")
     res_a = [c for c in calls(ga, "_resolve_media")]
     res_m = [c for c in calls(gm_, "_resolve_media")]
-    reads = [x for x in ast.walk(gm_) if isinstance(x, ast.Call) and norm(x.func) == "getattr" and len(x.args) >= 2 and isinstance(x.args[1], ast.Constant) and x.args[1].value == "Media"]
-    okm = bool(res_a) and bool(res_m) and bool(reads) and all(c.lineno < reads[0].lineno for c in res_m) and norm(res_m[0].args[0]) == norm(reads[0].args[0])
+    # where the class's Media input is read: the definition of the variable that `extend` is taken from
+    ext = [x for x in ast.walk(gm_) if isinstance(x, ast.Call) and norm(x.func) == "getattr" and len(x.args) >= 2 and isinstance(x.args[1], ast.Constant) and x.args[1].value == "extend" and isinstance(x.args[0], ast.Name)]
+    reads = [st for st, v in assignments(gm_, ext[0].args[0].id) if v is not None] if ext else []
+    cls_of_read = next((x.id for x in ast.walk(reads[0].value) if isinstance(x, ast.Name) and x.id not in ("getattr", "vars")), None) if reads else None
+    okm = bool(res_a) and bool(res_m) and bool(reads) and all(c.lineno < reads[0].lineno for c in res_m) and norm(res_m[0].args[0]) == cls_of_read
     chk.ob("S4", "component_media:_get_comp_cls_media:resolves-before-reading-Media", m.loc(reads[0]) if reads else m.loc(gm_), okm,
            "the class's inputs are resolved (_resolve_media) before its Media is read, as in _get_comp_cls_attr" if okm else
            "`.media` reads the class's Media without resolving it first (only `.template`/`.js`/`.css` call _resolve_media): the memoised result holds unresolved relative paths when `.media` is the first access and resolved ones otherwise - the result depends on the access order")
@@ -263,8 +266,12 @@ def s2(chk: Check, proj: Project, m) -> None:
 def s3(chk: Check, proj: Project, m) -> None:
     chk.rule("S3", "Media.extend is handled as True (all bases) / False (none) / otherwise the given classes")
     f = m.func("_get_comp_cls_media")
-    MI = local_from(f, lambda v: isinstance(v, ast.Call) and norm(v.func) == "getattr" and len(v.args) >= 2 and isinstance(v.args[1], ast.Constant) and v.args[1].value == "Media")
     ME = local_from(f, lambda v: isinstance(v, ast.Call) and norm(v.func) == "getattr" and len(v.args) >= 2 and isinstance(v.args[1], ast.Constant) and v.args[1].value == "extend")
+    # the Media input is whatever `extend` is read from
+    MI = None
+    for _s, v in assignments(f, ME) if ME else []:
+        if isinstance(v, ast.Call) and v.args and isinstance(v.args[0], ast.Name):
+            MI = v.args[0].id
     BS = local_from(f, lambda v: norm(v).endswith(".__bases__"))
     if not (MI and ME and BS):
         chk.undecided("S3", "component_media:_get_comp_cls_media:roles", m.loc(f), "Media / extend / bases variables not identified")
@@ -286,8 +293,18 @@ def s3(chk: Check, proj: Project, m) -> None:
     chk.ob("S3", "component_media:_get_comp_cls_media:extend-default-true", m.loc(d[0][0]) if d else m.loc(f), okd, "extend defaults to True")
     mi = assignments(f, MI)
     built = got.get("True", "").rsplit(".__bases__", 1)[0]
-    okm = len(mi) == 1 and norm(mi[0][1]).startswith(f"getattr({built}, 'Media'")
-    chk.ob("S3", "component_media:_get_comp_cls_media:own-media", m.loc(mi[0][0]) if mi else m.loc(f), okm, "the class's own Media is read from the class being built")
+    src = norm(mi[0][1]) if len(mi) == 1 and mi[0][1] is not None else ""
+    # OWN means: not found through attribute inheritance - the per-class record (`<rec>.Media`, rec read from the class being
+    # built) or the class's own __dict__; getattr(cls, "Media") returns a base's Media for a class that defines none
+    rec_names = {n_ for n_ in {x.id for x in ast.walk(mi[0][1]) if isinstance(x, ast.Name)} if any(v is not None and f"getattr({built}, '_component_media'" in norm(v) for _s, v in assignments(f, n_))} if len(mi) == 1 and mi[0][1] is not None else set()
+    own = (bool(rec_names) and ".Media" in src) or f"{built}.__dict__" in src or f"vars({built})" in src
+    inherited = src.startswith(f"getattr({built}, 'Media'")
+    if not own and not inherited:
+        chk.undecided("S3", "component_media:_get_comp_cls_media:own-media", m.loc(mi[0][0]) if mi else m.loc(f), f"source of the Media input not recognised: `{src}`")
+    else:
+        chk.ob("S3", "component_media:_get_comp_cls_media:own-media", m.loc(mi[0][0]) if mi else m.loc(f), own,
+               "the Media input is the class's OWN Media (per-class record / __dict__), never one found through inheritance" if own else
+               f"`{src}` finds a base's Media for a class that defines none, together with that base's `extend`: `class C(A, B): pass` with A.Media.extend = False gets only A's files, B's are lost (no own Media means: extend all bases)")
     # _get_comp_cls_attr walks the MRO of the requested class and resolves each base lazily
     ga = m.func("_get_comp_cls_attr")
     loop = next((x for x in body_walk(ga) if isinstance(x, ast.For)), None)
